@@ -42,7 +42,7 @@ func main() {
 	}
 }
 
-var classes = []string{"alias", "mixed", "collide", "unsized", "alias", "collide", "wide", "alias", "sweep"}
+var classes = []string{"alias", "mixed", "collide", "unsized", "early", "collide", "wide", "early", "sweep"}
 
 // fixed programs run before the generated ones: the hand-found witnesses
 // (DESIGN.md section 0) and their near misses.
@@ -69,6 +69,11 @@ func main(a, b uint8) (uint8, uint8, uint8) {
 	return x, a+b, b+3
 }
 `},
+	// a lazily resolved phi emitted in the else block, used by the
+	// continuation that is serialised before it (use before definition)
+	{Class: "corpus", GIn: []string{"9"}, EIn: []string{"100"}, Src: earlyReturnWitness},
+	{Class: "corpus", GIn: []string{"4"}, EIn: []string{"100"}, Src: earlyReturnWitness},
+	{Class: "corpus", GIn: []string{"1"}, EIn: []string{"100"}, Src: earlyReturnWitness},
 	// two live values in one allocator bucket ('a'^8 == 'c'^8^2): a{1,0} is
 	// recycled while the newer c{1,1} is live and used afterwards
 	{Class: "corpus", GIn: []string{"100"}, EIn: []string{"1000"}, Src: `package main
@@ -135,6 +140,21 @@ func main(key, data [16]byte) []byte {
 }
 `},
 }
+
+const earlyReturnWitness = `package main
+func main(a, b uint8) uint8 {
+	if a > 5 {
+		b = 31
+	}
+	if a > 2 {
+		a = a + 1
+	} else {
+		b = 7
+		return b
+	}
+	return b + a
+}
+`
 
 type outcome struct {
 	Status string
@@ -283,6 +303,14 @@ func oneProgram(o *hxlib.Out, cf *hxlib.CommonFlags, i int, r *hxlib.Rng, p *pro
 	o.CountN("const_inputs_padded_or_truncated", si.ConstPad)
 	o.CountN("const_inputs_sign_padded", si.SignPad)
 
+	if si.UBD > 0 || si.DupOut > 0 {
+		o.Count("ssa_use_before_def_programs")
+		o.Fail("c05-ssa-use-before-def", mk(map[string]any{"uses_before_definition": si.UBD, "values_defined_twice": si.DupOut,
+			"first": si.UBDList, "note": "prog.Steps is not in definition-before-use order: the sequential streaming " +
+				"walker allocates fresh, never garbled wires at the early use"}))
+	} else {
+		o.Count("ssa_def_before_use_holds")
+	}
 	w := hxlib.StreamReference(p.Src, p.GIn, p.EIn)
 	refOK := w.Err == nil && w.Panic == nil
 	if !refOK {
@@ -343,6 +371,11 @@ func oneProgram(o *hxlib.Out, cf *hxlib.CommonFlags, i int, r *hxlib.Rng, p *pro
 		o.Fail("c05-transcript-unparsable", mk(map[string]any{"err": tr.Err}))
 	}
 	emitGcOp(o, sp, si, tr, g.Status == "ok")
+	if len(sp.Steps) <= 600 && !si.HasCirc {
+		if sp5, err := hxlib.CompileSSA(p.Src, sizes); err == nil {
+			emitScrambleOp(o, sp5, r.Fork(), p, i)
+		}
+	}
 
 	info := map[string]any{"cause": cause, "early_free_kinds": si.kindsString(), "early_frees": si.UAFs, "ot": otName,
 		"garbler": g.String(), "evaluator": e.String(), "whole": wo.String()}
@@ -410,6 +443,22 @@ func oneProgram(o *hxlib.Out, cf *hxlib.CommonFlags, i int, r *hxlib.Rng, p *pro
 				cause = "const-second-width"
 				info["cause"] = cause
 				info["explained_by_const_width"] = "true"
+			}
+		}
+	}
+	// Third attribution: a value used before the step that defines it.
+	if explained == "false" && info["explained_by_const_width"] == nil && si.UBD > 0 {
+		if sp4, err := hxlib.CompileSSA(p.Src, sizes); err == nil {
+			reorderDefBeforeUse(sp4)
+			d4 := hxlib.NewDuplex(nil)
+			res4 := hxlib.RunStreamProgram(sp4, p.GIn, p.EIn, nil, r.Fork(), d4, 90*time.Second)
+			d4.Close()
+			g4, e4 := streamOutcomes(res4)
+			info["rerun_in_definition_order"] = g4.String()
+			if g4 == wo && e4 == wo {
+				cause = "use-before-def"
+				info["cause"] = cause
+				info["explained_by_reorder"] = "true"
 			}
 		}
 	}
